@@ -380,21 +380,20 @@ func c14Run(t *testing.T, c c14Case) (res vfResult) {
 	return
 }
 
-// c14LockKey strips instance names from a lock path: "Topic(t1).mux" -> "Topic.mux", "ps.rt(*pubsub.X).mu" kept.
+// c14LockKey strips instance names from a lock path: "Topic(t1).mux" and "ps.myTopics[t1].mux" -> "Topic.mux".
 func c14LockKey(p string) string {
-	if i := strings.IndexByte(p, '('); i >= 0 && strings.HasPrefix(p, "Topic(") {
-		if j := strings.IndexByte(p, ')'); j > i {
-			return "Topic" + p[j+1:]
-		}
+	k := vfWalkKey(p) // instance names in [...] and (...) removed
+	if strings.HasSuffix(k, "myTopics.mux") || strings.HasPrefix(k, "Topic") && strings.HasSuffix(k, ".mux") && !strings.Contains(k, "evtHandler") {
+		return "Topic.mux"
 	}
-	if i := strings.IndexByte(p, '#'); i >= 0 {
+	if i := strings.IndexByte(k, '#'); i >= 0 {
 		j := i + 1
-		for j < len(p) && p[j] >= '0' && p[j] <= '9' {
+		for j < len(k) && k[j] >= '0' && k[j] <= '9' {
 			j++
 		}
-		return p[:i] + p[j:]
+		k = k[:i] + k[j:]
 	}
-	return p
+	return k
 }
 
 // c14LeakKey names the library function the first leaked goroutine sits in.
